@@ -162,9 +162,13 @@ def _classes():
             s = self.options['spec']
             n = s['n']
             for v in s['ins']:
-                self.add_input(v, val=np.ones(n))
+                self.add_input(v, val=np.ones(n), units=s.get('units', {}).get(v))
             for v in s['outs']:
-                self.add_output(v, val=np.ones(n))
+                rr = s.get('ref', {}).get(v)
+                if rr:
+                    self.add_output(v, val=np.ones(n), ref=rr[0], ref0=rr[1])
+                else:
+                    self.add_output(v, val=np.ones(n))
             ar = np.arange(n)
             ap = s.get('approx')
             if ap in ('fd', 'cs'):
@@ -205,9 +209,13 @@ def _classes():
             s = self.options['spec']
             n = s['n']
             for v in s['ins']:
-                self.add_input(v, val=np.ones(n))
+                self.add_input(v, val=np.ones(n), units=s.get('units', {}).get(v))
             for v in s['outs']:
-                self.add_output(v, val=np.ones(n))
+                rr = s.get('ref', {}).get(v)
+                if rr:
+                    self.add_output(v, val=np.ones(n), ref=rr[0], ref0=rr[1])
+                else:
+                    self.add_output(v, val=np.ones(n))
             ar = np.arange(n)
             for o in s['outs']:
                 self.declare_partials(o, o, rows=ar, cols=ar)
@@ -247,9 +255,13 @@ def _classes():
             s = self.options['spec']
             n = s['n']
             for v in s['ins']:
-                self.add_input(v, val=np.ones(n))
+                self.add_input(v, val=np.ones(n), units=s.get('units', {}).get(v))
             for v in s['outs']:
-                self.add_output(v, val=np.ones(n))
+                rr = s.get('ref', {}).get(v)
+                if rr:
+                    self.add_output(v, val=np.ones(n), ref=rr[0], ref0=rr[1])
+                else:
+                    self.add_output(v, val=np.ones(n))
             ar = np.arange(n)
             for j, o in enumerate(s['outs']):
                 for i, v in enumerate(s['ins']):
@@ -277,7 +289,19 @@ def _classes():
                     if nm.startswith(pre):
                         root.set_val(nm, case.outputs[nm])
 
-    return KExpl, KImpl, KConst, KLoadGroup
+    class KDisc(om.ExplicitComponent):
+        """a component with a discrete input and output (its presence changes how cases are stored)"""
+        def setup(self):
+            self.add_input('u', val=1.0)
+            self.add_discrete_input('n', val=2)
+            self.add_output('v', val=1.0)
+            self.add_discrete_output('m', val=0)
+
+        def compute(self, inputs, outputs, discrete_inputs, discrete_outputs):
+            outputs['v'] = discrete_inputs['n'] * inputs['u'] + 0.5
+            discrete_outputs['m'] = discrete_inputs['n'] + 1
+
+    return KExpl, KImpl, KConst, KLoadGroup, KDisc
 
 
 def _exec_comp(om, c):
@@ -305,7 +329,7 @@ def build(spec, driver=None):
     import openmdao.api as om
     if _CLS is None:
         _CLS = _classes()
-    KExpl, KImpl, KConst, KLoadGroup = _CLS
+    KExpl, KImpl, KConst, KLoadGroup, KDisc = _CLS
     p = om.Problem()
     groups = {'': p.model}
     overriding = set(spec.get('load_override', []))
@@ -328,8 +352,12 @@ def build(spec, driver=None):
             comp = (KImpl if c['kind'] == 'impl' else KExpl)(spec=c)
         group_of(parent).add_subsystem(name, comp, promotes_inputs=list(c['prom_in']),
                                        promotes_outputs=list(c['prom_out']))
+    if spec.get('discrete'):
+        p.model.add_subsystem('disc', KDisc(), promotes_inputs=[('u', 'u_d'), ('n', 'n_d')])
     for src, tgt in spec['conns']:
         p.model.connect(src, tgt)
+    for name, meta in spec.get('input_defaults', {}).items():
+        p.model.set_input_defaults(name, **meta)
     for path, s in spec.get('solvers', {}).items():
         g = groups[path]
         if s['nl'] == 'nlbgs':
